@@ -116,3 +116,20 @@ Example C33_thread_local_state_schedules_differ :
     running c1 = [] /\ running c2 = [] /\ pending c1 = [] /\ pending c2 = [] /\
     map (fun e : Z => cmem c1 (1, e)%Z) [0; 1]%Z = [295; 302]%Z /\ map (fun e : Z => cmem c2 (1, e)%Z) [0; 1]%Z = [295; 295]%Z.
 Proof. eexists. eexists. vm_compute. repeat split. Qed.
+
+(* mj_recompile's SaveState / RestoreState on one per-object array: when every object k is saved from and restored to
+   the [stride] entries at stride*k -- the same multiplier for the offset as for the length -- the array comes back
+   unchanged, for every element type, stride (3 for mocap_pos, 4 for mocap_quat, ...) and number of objects ... *)
+Theorem C33_save_restore_identity :
+  forall (A : Type) (stride n : nat) (l : list A), length l = (stride * n)%nat -> save_restore stride stride n l = l.
+Proof. exact save_restore_id. Qed.
+Print Assumptions C33_save_restore_identity.
+
+(* ... while one shared offset 3*k used for a stride-4 array returns a different array as soon as there are two
+   objects (it is invisible with a single object, and for the stride-3 array) *)
+Theorem C33_save_restore_shared_offset_refuted :
+  save_restore 3 4 2 [10; 11; 12; 13; 20; 21; 22; 23]%Z <> [10; 11; 12; 13; 20; 21; 22; 23]%Z /\
+  save_restore 3 3 2 [10; 11; 12; 20; 21; 22]%Z = [10; 11; 12; 20; 21; 22]%Z /\
+  save_restore 3 4 1 [10; 11; 12; 13]%Z = [10; 11; 12; 13]%Z.
+Proof. exact save_restore_shared_offset_wrong. Qed.
+Print Assumptions C33_save_restore_shared_offset_refuted.
